@@ -86,6 +86,24 @@ def gen_case(rng):
         M = rng.randint(1, 4)
         X = [[rng.randint(-4, 4) for _ in range(D)] for _ in range(M)]
         cs = [rng.randint(-3, 3) for _ in range(L)]
+        # the implementation computes in double precision, the model over Z: keep to stacks all of whose intermediate values are
+        # integers below 2^53, where float arithmetic is exact (otherwise fall back to a small instance)
+        def exact_ok():
+            for xrow in (X or [[]]):
+                vals = []
+                for (n_, p1, p2) in s:
+                    v = p1 if n_ == -1 else (xrow[p1] if n_ == 0 else (cs[p1] if n_ == 1 else
+                        (vals[p1] + vals[p2] if n_ == 2 else (vals[p1] - vals[p2] if n_ == 3 else vals[p1] * vals[p2]))))
+                    if abs(v) >= 2 ** 53:
+                        return False
+                    vals.append(v)
+            return True
+        for _ in range(6):
+            if exact_ok():
+                break
+            s = gen_stack(rng, rng.randint(1, 6), D, L, [2, 3, 4], int_values=(0, 1, 2, 3, -1, -2, 7))
+        else:
+            s = [[-1, 1, 1]]
         return dict(kind=1, stack=s, M=M, D=D, L=L, X=X, cs=cs)
     D, L = 2, 2
     s = gen_stack(rng, rng.randint(1, 22), D, L, allops)
